@@ -371,14 +371,26 @@ class Facts:
         sig = ref.get(path)
         if sig is None or path in self.fns:
             return None
+        import re as _re
+
+        def norm(t):
+            # lifetimes by any name are the same type for this purpose
+            return _re.sub(r"'[A-Za-z_][A-Za-z0-9_]*", "'_", t)
         cands = []
         for p, fn in self.fns.items():
             if p in ref:
                 continue        # an existing function keeps its own identity
-            if [t['s'] for t in fn['inputs']] == sig['inputs'] and fn['output']['s'] == sig['output']:
+            if [norm(t['s']) for t in fn['inputs']] == [norm(x) for x in sig['inputs']] and \
+                    norm(fn['output']['s']) == norm(sig['output']):
                 cands.append(p)
         same = [p for p in cands if p.rsplit('::', 1)[0] == path.rsplit('::', 1)[0]]
-        pick = same[0] if len(same) == 1 else (cands[0] if len(cands) == 1 else None)
+        named = [p for p in cands if p.rsplit('::', 1)[-1] == path.rsplit('::', 1)[-1]]
+        pick = same[0] if len(same) == 1 else (named[0] if len(named) == 1 else (cands[0] if len(cands) == 1 else None))
+        if pick is None and not cands:
+            # moved (free function <-> method, other module) and re-typed slightly: a unique new function of the same name
+            byname = [p for p in self.fns if p not in ref and p.rsplit('::', 1)[-1] == path.rsplit('::', 1)[-1]]
+            if len(byname) == 1:
+                pick = byname[0]
         self.aliases[path] = pick
         return pick
 
